@@ -68,6 +68,11 @@ var redirects = map[string]string{
 	"github.com/nats-io/nuid.Next":                           "verifNuidNext",
 	"(*net/http.Client).Do":                                  "verifHTTPDo",
 	"github.com/Workiva/frugal/compiler/parser.ParseFrugal":  "verifParseFrugal",
+	"github.com/Workiva/frugal/compiler/parser.ParseReader":  "verifParseReader",
+	"os.Open":          "verifOsOpen",
+	"(*os.File).Close": "verifFileClose",
+	"(*os.File).Name":  "verifFileName",
+	"(*os.File).Stat":  "verifFileStat",
 }
 
 // library types the harnesses replace by a zero value plus redirected methods
